@@ -200,6 +200,15 @@ pub fn case_strategy(tier: Tier) -> BoxedStrategy<Case> {
             if sels[0] % 16 == 0 {
                 name = pattern.clone();
             }
+            // or the pattern's literals with the stars dropped and one character less (the text in
+            // front of a '*' and the text behind it would have to overlap)
+            if sels[0] % 16 == 1 {
+                let mut cs: Vec<char> = pattern.chars().filter(|c| *c != '*').collect();
+                if !cs.is_empty() {
+                    cs.remove(idx(sels[1], cs.len()));
+                }
+                name = cs.into_iter().collect();
+            }
             if let Some((k, s)) = mu {
                 name = mutate(&name, k, s);
             }
